@@ -481,7 +481,8 @@ def _obj_size(P, ty):
 
 def local_scrubs(P):
     """{function: {type of local: number of distinct locals of that type handed whole to a scrub call}} and the scrub calls with sizes"""
-    res, calls = {}, []
+    calls = []
+    own, callees, names = {}, {}, {}
     seen = set()
     for tu in P.tus():
         if tu == 'x86_64__self_test.c':
@@ -502,7 +503,26 @@ def local_scrubs(P):
                 per.setdefault(re.sub(r'\d+', 'N', re.sub(r'\(unnamed (\w+) at [^)]*\)', r'(unnamed \1)', types[t])), set()).add(t)
                 calls.append((f, ev, t, types[t]))
             if per:
-                res[f.name] = {k: len(v) for k, v in per.items()}
+                own[(tu, f.name)] = {k: len(v) for k, v in per.items()}
+            callees[(tu, f.name)] = {ev['e'].get('fn') for _, _, ev in f.calls() if ev['e'].get('fn') and P.has(tu, ev['e']['fn'])}
+            names.setdefault(f.name, tu)
+    # a local moved into a helper together with its scrub is still scrubbed: count over the function and the TU-local helpers it reaches
+    res = {}
+    for (tu, fn) in list(callees):
+        if names.get(fn) != tu:
+            continue
+        seen_f, st = set(), [fn]
+        tot = {}
+        while st:
+            n = st.pop()
+            if n in seen_f:
+                continue
+            seen_f.add(n)
+            for k, v in own.get((tu, n), {}).items():
+                tot[k] = tot.get(k, 0) + v
+            st.extend(callees.get((tu, n), ()))
+        if tot:
+            res[fn] = tot
     return res, calls
 
 
